@@ -207,6 +207,24 @@ def check(case):
         case.equal(P.n_parameters(), L.n_parameters(), 'posterior n_parameters')
         case.equal(P.get_parameter_names(), L.get_parameter_names(), 'posterior names')
 
+    # A parameter is fixed, re-fixed at another value (as in a profile scan) and released again: every evaluation
+    # uses the value of the LAST call.
+    if s['oos'] is None and len(params) >= 2:
+        with case.clause('refix_scan'):
+            names_all = list(L.get_parameter_names())
+            k = (len(params) * 7) // 11
+            rest = np.delete(params, k)
+            L.fix_parameters({names_all[k]: float(params[k]) * 1.7 + 0.3})
+            L.fix_parameters({names_all[k]: float(params[k])})
+            case.equal(list(L.get_parameter_names()), [n for j, n in enumerate(names_all) if j != k],
+                       'names after fixing %r twice' % names_all[k])
+            case.close(L(rest.copy()), want, rtol=1e-9, what='log-likelihood after re-fixing %r at its value' % names_all[k])
+            case.close(np.sum(L.compute_pointwise_ll(rest.copy())), want, rtol=1e-9,
+                       what='sum(pointwise) after re-fixing %r at its value' % names_all[k])
+            L.fix_parameters({names_all[k]: None})
+            case.equal(list(L.get_parameter_names()), names_all, 'names after releasing %r' % names_all[k])
+            case.close(L(params.copy()), want, rtol=1e-9, what='log-likelihood after releasing %r again' % names_all[k])
+
     # The user goes on using their own model object (e.g. for a second likelihood over the outputs in another order):
     # the likelihood constructed before keeps scoring its observations against its own outputs.
     if s['oos'] is None:
